@@ -191,6 +191,7 @@ func (r *FnRun) execInstr(st *State, ins ssa.Instruction, in map[*ssa.BasicBlock
 			// interface whose dynamic type is T; if it is, the dynamic type is whatever the value holds
 			tb := r.tb()
 			tpt := r.e.typeArgTag(tp)
+			r.root.notes["generic body verified once for all type arguments: boxing a value of type parameter "+tp.Obj().Name()+" yields a non-nil interface of dynamic type "+tp.Obj().Name()+" unless "+tp.Obj().Name()+" is an interface type (modelled, not derived from an instantiation)"] = true
 			isI := tb.Eq(tb.App("ghost:rkind", BV64, tb.App("ghost:typedesc", BV64, tpt)), tb.BVI(64, 20))
 			r.addFact(tb.Implies(tb.Not(isI), tb.Not(tb.Eq(tpt, tb.BVI(64, 0)))))
 			r.vals[x] = IfaceV{Tag: tb.Ite(isI, tb.Fresh("tpbox.tag", BV64), tpt), Data: tb.Fresh("tpbox.data", BV64)}
